@@ -8,8 +8,6 @@ Local Open Scope N_scope.
 
 Lemma add_call_final s d : final (add_call s d) = final s.
 Proof. unfold add_call. destruct (existsb _ _); reflexivity. Qed.
-Lemma add_call_walked s d : walked (add_call s d) = walked s.
-Proof. unfold add_call. destruct (existsb _ _); reflexivity. Qed.
 Lemma add_call_In s d : In d (deps (add_call s d)).
 Proof.
   unfold add_call. destruct (existsb (dep_eqb d) (deps s)) eqn:E; [apply dep_mem_In, E|].
@@ -43,13 +41,12 @@ Section Props.
     Variable Q : id -> id -> id -> id -> Prop.
     Hypothesis J_call : forall s src sep t e, J s -> Q src sep t e -> mem t excludes = false -> J (add_call s (src,sep,t,e)).
     Hypothesis J_final : forall s t, J s -> mem t excludes = false -> J (add_final s t).
-    Hypothesis J_mark : forall s n, J s -> J (mark s n).
     Hypothesis Q_step : forall t e a ep t' e', mem t excludes = false -> assoc t m = Some a -> assoc e (eps a) = Some ep ->
       In (t',e') (calls (body ep)) -> Q t e t' e'.
 
-    Lemma pep_inv : forall fuel src sep s t e s', Q src sep t e -> J s -> pep fuel src sep s t e = Ok s' -> J s'.
+    Lemma pep_inv : forall fuel stk src sep s t e s', Q src sep t e -> J s -> pep fuel stk src sep s t e = Ok s' -> J s'.
     Proof.
-      induction fuel as [|f IH]; intros src sep s t e s' Hq Hs Hp; cbn [IntsModel.pep] in Hp; [discriminate|].
+      induction fuel as [|f IH]; intros stk src sep s t e s' Hq Hs Hp; cbn [IntsModel.pep] in Hp; [discriminate|].
       destruct (mem t excludes) eqn:Hex; [injection Hp as <-; exact Hs|].
       destruct (target_human m t); [injection Hp as <-; exact Hs|].
       destruct (target_hidden m t e) as [h| |]; try discriminate.
@@ -57,13 +54,11 @@ Section Props.
       assert (Hs1 : J s1) by (unfold s1; destruct h; [exact Hs|apply J_call; assumption]).
       pose proof (J_final s1 t Hs1 Hex) as Hs2.
       destruct (mem t passthrough); [|injection Hp as <-; exact Hs2].
-      destruct (g && nmem (t, e) (walked (add_final s1 t))); [injection Hp as <-; exact Hs2|].
-      set (s3 := if g then mark (add_final s1 t) (t, e) else add_final s1 t) in Hp.
-      assert (Hs3 : J s3) by (unfold s3; destruct g; [apply J_mark, Hs2|exact Hs2]).
-      destruct (assoc t m) as [a|] eqn:Ha; [|injection Hp as <-; exact Hs3].
-      destruct (assoc e (eps a)) as [ep|] eqn:Hep; [|injection Hp as <-; exact Hs3].
+      destruct (g && nmem (t, e) stk); [injection Hp as <-; exact Hs2|].
+      destruct (assoc t m) as [a|] eqn:Ha; [|injection Hp as <-; exact Hs2].
+      destruct (assoc e (eps a)) as [ep|] eqn:Hep; [|injection Hp as <-; exact Hs2].
       rewrite walk_fold in Hp.
-      eapply (foldM_inv J (uncur (pep f t e)) (calls (body ep))); [|exact Hs3|exact Hp].
+      eapply (foldM_inv J (uncur (pep f ((t,e)::stk) t e)) (calls (body ep))); [|exact Hs2|exact Hp].
       intros s0 [t0 e0] s0' Hin Hs0 Hstep. unfold uncur in Hstep. cbn [fst snd] in Hstep.
       eapply IH; [|exact Hs0|exact Hstep]. eapply Q_step; eassumption.
     Qed.
@@ -86,14 +81,13 @@ Section Props.
   Lemma FE_add_call s d : FE s -> FE (add_call s d).
   Proof. intros Hs b Hb. rewrite add_call_final in Hb. apply Hs, Hb. Qed.
 
-  Lemma pep_sound fuel src sep s t e s' :
-    has_call src sep t e -> mem src excludes = false -> IF s -> pep fuel src sep s t e = Ok s' -> IF s'.
+  Lemma pep_sound fuel stk src sep s t e s' :
+    has_call src sep t e -> mem src excludes = false -> IF s -> pep fuel stk src sep s t e = Ok s' -> IF s'.
   Proof.
     intros Hc Hsrc. apply (pep_inv IF (fun src sep t e => has_call src sep t e /\ mem src excludes = false)).
     - intros s0 src0 sep0 t0 e0 [Hi Hf] [Hc0 Hs0] Ht0. split; [|apply FE_add_call, Hf].
       apply I_add_call; [exact Hi|]. split; [exact Hc0|split; assumption].
     - intros s0 t0 [Hi Hf] Ht0. split; [exact Hi|apply FE_add_final; assumption].
-    - intros s0 n H. exact H.
     - intros t0 e0 a ep t' e' Hex Ha Hep Hin. split; [|exact Hex]. exists a, ep. split; [exact Ha|split; [apply assoc_In, Hep|exact Hin]].
     - split; assumption.
   Qed.
@@ -135,9 +129,9 @@ Section Props.
       has_call src sep t e /\ mem src excludes = false /\ mem t excludes = false.
   Proof.
     intros Hse Hb. unfold IntsModel.build in Hb.
-    set (s0 := {| deps := []; final := seeds; walked := [] |}) in Hb.
+    set (s0 := {| deps := []; final := seeds |}) in Hb.
     assert (J0 : IF s0) by (split; [intros d []|intros a Ha; apply Hse, Ha]).
-    destruct (over_apps m (pep fuel) seeds s0) as [s1| |] eqn:E1; try discriminate.
+    destruct (over_apps m (pep fuel []) seeds s0) as [s1| |] eqn:E1; try discriminate.
     rewrite over_apps_fold in E1.
     assert (J1 : IF s1).
     { eapply (foldM_inv IF); [|exact J0|exact E1].
@@ -177,14 +171,14 @@ Section Props.
   Theorem build_nodup fuel s : build fuel = Ok s -> NoDup (deps s).
   Proof.
     intros Hb. unfold IntsModel.build in Hb.
-    set (s0 := {| deps := []; final := seeds; walked := [] |}) in Hb.
+    set (s0 := {| deps := []; final := seeds |}) in Hb.
     assert (J0 : ND s0) by constructor.
-    destruct (over_apps m (pep fuel) seeds s0) as [s1| |] eqn:E1; try discriminate.
+    destruct (over_apps m (pep fuel []) seeds s0) as [s1| |] eqn:E1; try discriminate.
     rewrite over_apps_fold in E1.
     assert (J1 : ND s1).
     { eapply (foldM_inv ND); [|exact J0|exact E1].
       intros s2 [[[a sep] t] e] s2' _ Hs2 Hstep. cbn [uncur4] in Hstep.
-      eapply (pep_inv ND (fun _ _ _ _ => True)); [| | | |exact Logic.I|exact Hs2|exact Hstep]; auto using ND_add_call. }
+      eapply (pep_inv ND (fun _ _ _ _ => True)); [| | |exact Logic.I|exact Hs2|exact Hstep]; auto using ND_add_call. }
     destruct (over_apps m my_callers (map fst m) s1) as [s2| |] eqn:E2; try discriminate.
     rewrite over_apps_fold in E2.
     assert (J2 : ND s2).
@@ -209,9 +203,9 @@ Section Props.
   Lemma R_refl s : R s s. Proof. apply incl_refl. Qed.
   Lemma R_trans a b c : R a b -> R b c -> R a c. Proof. apply incl_tran. Qed.
 
-  Lemma pep_mono fuel src sep s t e s' : pep fuel src sep s t e = Ok s' -> R s s'.
+  Lemma pep_mono fuel stk src sep s t e s' : pep fuel stk src sep s t e = Ok s' -> R s s'.
   Proof.
-    intros Hp. eapply (pep_inv (R s) (fun _ _ _ _ => True)); [| | | |exact Logic.I|apply R_refl|exact Hp]; auto.
+    intros Hp. eapply (pep_inv (R s) (fun _ _ _ _ => True)); [| | |exact Logic.I|apply R_refl|exact Hp]; auto.
     - intros s0 src0 sep0 t0 e0 H _ _. eapply R_trans; [exact H|apply add_call_incl].
   Qed.
   Lemma my_callers_mono src sep s t e s' : my_callers src sep s t e = Ok s' -> R s s'.
@@ -233,8 +227,8 @@ Section Props.
   Qed.
 
   (* the seed pass records a call that passes the three tests at once *)
-  Lemma pep_adds fuel src sep s t e s' :
-    pep fuel src sep s t e = Ok s' -> mem t excludes = false -> target_human m t = false ->
+  Lemma pep_adds fuel stk src sep s t e s' :
+    pep fuel stk src sep s t e = Ok s' -> mem t excludes = false -> target_human m t = false ->
     target_hidden m t e = Ok false -> In (src,sep,t,e) (deps s').
   Proof.
     intros Hp Hex Hhu Hhi. destruct fuel as [|f]; cbn [IntsModel.pep] in Hp; [discriminate|].
@@ -242,16 +236,14 @@ Section Props.
     set (s2 := add_final (add_call s (src, sep, t, e)) t) in Hp.
     assert (H2 : In (src,sep,t,e) (deps s2)) by (unfold s2; cbn [add_final deps]; apply add_call_In).
     destruct (mem t passthrough); [|injection Hp as <-; exact H2].
-    destruct (g && nmem (t, e) (walked s2)); [injection Hp as <-; exact H2|].
-    set (s3 := if g then mark s2 (t, e) else s2) in Hp.
-    assert (H3 : In (src,sep,t,e) (deps s3)) by (unfold s3; destruct g; exact H2).
-    destruct (assoc t m) as [a|]; [|injection Hp as <-; exact H3].
-    destruct (assoc e (eps a)) as [ep|]; [|injection Hp as <-; exact H3].
+    destruct (g && nmem (t, e) stk); [injection Hp as <-; exact H2|].
+    destruct (assoc t m) as [a|]; [|injection Hp as <-; exact H2].
+    destruct (assoc e (eps a)) as [ep|]; [|injection Hp as <-; exact H2].
     rewrite walk_fold in Hp.
-    assert (Hm : R s3 s').
-    { eapply (foldM_inv (R s3)); [|apply R_refl|exact Hp].
+    assert (Hm : R s2 s').
+    { eapply (foldM_inv (R s2)); [|apply R_refl|exact Hp].
       intros s0 [t0 e0] s0' _ Hs0 Hstep. unfold uncur in Hstep. eapply R_trans; [exact Hs0|eapply pep_mono, Hstep]. }
-    apply Hm, H3.
+    apply Hm, H2.
   Qed.
 
   Theorem build_complete_gen fuel s S ap sep ep t e :
@@ -261,14 +253,14 @@ Section Props.
     In (S,sep,t,e) (deps s).
   Proof.
     intros Hb HS Hap Hep Hcoll Hin Hex Hhu Hhi. unfold IntsModel.build in Hb.
-    set (s0 := {| deps := []; final := seeds; walked := [] |}) in Hb.
-    destruct (over_apps m (pep fuel) seeds s0) as [s1| |] eqn:E1; try discriminate.
+    set (s0 := {| deps := []; final := seeds |}) in Hb.
+    destruct (over_apps m (pep fuel []) seeds s0) as [s1| |] eqn:E1; try discriminate.
     rewrite over_apps_fold in E1.
-    destruct (foldM_hit R (uncur4 (pep fuel)) (scalls m seeds) R_refl R_trans) with (s:=s0) (s':=s1) as [_ Hhit]; [|exact E1|].
+    destruct (foldM_hit R (uncur4 (pep fuel [])) (scalls m seeds) R_refl R_trans) with (s:=s0) (s':=s1) as [_ Hhit]; [|exact E1|].
     { intros s2 [[[a0 sep0] t0] e0] s2' _ Hstep. eapply pep_mono, Hstep. }
     destruct (Hhit (S,sep,t,e)) as (sa & sb & Hstep & Hsb).
     { apply in_scalls. split; [exact HS|]. exists ap, ep. auto. }
-    cbn [uncur4] in Hstep. pose proof (pep_adds _ _ _ _ _ _ _ Hstep Hex Hhu Hhi) as H1. apply Hsb in H1.
+    cbn [uncur4] in Hstep. pose proof (pep_adds _ _ _ _ _ _ _ _ Hstep Hex Hhu Hhi) as H1. apply Hsb in H1.
     destruct (over_apps m my_callers (map fst m) s1) as [s2| |] eqn:E2; try discriminate.
     rewrite over_apps_fold in E2.
     assert (R12 : R s1 s2).
